@@ -526,3 +526,8 @@ def mentions_deep(F, t, needle):
             if needle in (c.target_path or "") or needle == (c.method or ""):
                 return True
     return False
+
+
+def edge_dominates(fn, edge, bb):
+    """every path from entry to bb takes the CFG edge (a, s): bb is unreachable once the edge is removed"""
+    return bb not in reachable_without_edges(fn, [edge])
